@@ -147,8 +147,14 @@ func (m *MoovBox) RemovePsshs() []*PsshBox {
 
 func (m *MoovBox) GetSinf(trackID uint32) *SinfBox {
 	for _, trak := range m.Traks {
-		if trak.Tkhd.TrackID == trackID {
+		if trak.Tkhd != nil && trak.Tkhd.TrackID == trackID {
+			if trak.Mdia == nil || trak.Mdia.Minf == nil || trak.Mdia.Minf.Stbl == nil {
+				continue
+			}
 			stsd := trak.Mdia.Minf.Stbl.Stsd
+			if stsd == nil || len(stsd.Children) == 0 {
+				continue
+			}
 			sd := stsd.Children[0] // Get first (and only)
 			switch box := sd.(type) {
 			case *VisualSampleEntryBox:
@@ -164,8 +170,14 @@ func (m *MoovBox) GetSinf(trackID uint32) *SinfBox {
 // IsEncrypted returns true if SampleEntryBox is "encv" or "enca"
 func (m *MoovBox) IsEncrypted(trackID uint32) bool {
 	for _, trak := range m.Traks {
-		if trak.Tkhd.TrackID == trackID {
+		if trak.Tkhd != nil && trak.Tkhd.TrackID == trackID {
+			if trak.Mdia == nil || trak.Mdia.Minf == nil || trak.Mdia.Minf.Stbl == nil {
+				continue
+			}
 			stsd := trak.Mdia.Minf.Stbl.Stsd
+			if stsd == nil || len(stsd.Children) == 0 {
+				continue
+			}
 			sd := stsd.Children[0] // Get first (and only)
 			switch box := sd.(type) {
 			case *VisualSampleEntryBox:
